@@ -390,6 +390,16 @@ fn with_parens(dexpr: &TypeExpression) -> Markup {
     }
 }
 
+/// The base of a power needs parens if it is a power itself: `(Length^2)^3`
+fn power_base_with_parens(dexpr: &TypeExpression) -> Markup {
+    match dexpr {
+        expr @ TypeExpression::Power(..) => {
+            m::operator("(") + expr.pretty_print() + m::operator(")")
+        }
+        expr => with_parens(expr),
+    }
+}
+
 impl PrettyPrint for TypeExpression {
     fn pretty_print(&self) -> Markup {
         match self {
@@ -416,10 +426,10 @@ impl PrettyPrint for TypeExpression {
             }
             // written with a unicode exponent (`Length²`): keep that spelling
             TypeExpression::Power(None, lhs, _, exp) if exp.is_integer() => {
-                with_parens(lhs) + m::operator(crate::arithmetic::pretty_exponent(exp))
+                power_base_with_parens(lhs) + m::operator(crate::arithmetic::pretty_exponent(exp))
             }
             TypeExpression::Power(_, lhs, _, exp) => {
-                with_parens(lhs)
+                power_base_with_parens(lhs)
                     + m::operator("^")
                     // negative and fractional exponents need parentheses to be read back
                     + if exp.is_positive() && exp.is_integer() {
